@@ -42,6 +42,13 @@ def _worker(st, ctx):
     chk("slice", "%s[%d:%d]" % (a, st["lo"], st["hi"]), A[st["lo"]:st["hi"]].s, list(res["slice"]))
     if not isinstance(A[st["lo"]:st["hi"]], lw.State):
         f.append(("slice", "a slice is not a State"))
+    # every other slice form is list slicing too: steps, negative indices, open ends (the specification's SliceLaw is the unit-step case)
+    for sl in (slice(None, None, 2), slice(None, None, -1), slice(1, None, 2), slice(None, None, 3), slice(-2, None), slice(None, -1), slice(None, None, -2),
+               slice(st["lo"], st["hi"], 2), slice(None, None, None), slice(st["hi"], st["lo"], -1)):
+        got = A[sl]
+        if not isinstance(got, lw.State) or got.s != list(a)[sl] or got.n_modes != len(list(a)[sl]) or got.n_photons != sum(list(a)[sl]):
+            f.append(("slice", "%s[%s:%s:%s] gave %s, expected %s" % (a, sl.start, sl.stop, sl.step, got, list(a)[sl])))
+            break
     chk("equality", "%s == %s" % (a, b), A == B, res["eq"])
     if A == B and hash(A) != hash(B):
         f.append(("hash", "equal states %s hash differently" % (a,)))
@@ -152,9 +159,12 @@ def numeric_probes(seed, n):
         if abs(decimal_to_db_loss(db_loss_to_decimal(d)) - d) > 1e-6:
             out.append(("conversion", "decimal_to_db_loss(db_loss_to_decimal(%r)) != d" % d, {"call": "conversion"}))
             break
-    for k in range(max(4, n // 200)):
+    edge = [(2, 0), (1, 0), (3, 0), (1, 1), (2, 1), (5, 2 ** 32 - 1)]        # seed 0, dimension 1, the largest 32-bit seed
+    for k in range(max(4, n // 200) + len(edge)):
         N = rng.randint(2, 8)
         sd = rng.randint(0, 10 ** 6)
+        if k < len(edge):
+            N, sd = edge[k]
         U = random_unitary(N, seed=sd)
         if np.abs(U.conj().T @ U - np.eye(N)).max() > 1e-9 or U.shape != (N, N):
             out.append(("random", "random_unitary(%d, seed=%d) is not unitary" % (N, sd), {"call": "random_unitary"}))
